@@ -28,7 +28,7 @@ from contracts.histories import tree_snapshot
 from pyvc.contracts import Contract
 from pyvc.core import fresh_name
 
-OPS = ("points", "group", "data", "pgroup", "reuse_same", "reuse_cross", "reuse_data", "reuse_pg", "pg_reuse", "copy_same", "copy_other", "copy_other_again", "remove", "remove_other", "recreate", "reopen", "gc")
+OPS = ("points", "group", "data", "pgroup", "reuse_same", "reuse_cross", "reuse_data", "reuse_pg", "pg_reuse", "reuse_type", "copy_same", "copy_other", "copy_other_again", "remove", "remove_other", "recreate", "reopen", "gc")
 
 
 def _live(ws):
@@ -122,7 +122,17 @@ def run_history(case):
                     o.add_data_to_group(kids[0], fresh("pg"))
             elif op == "reuse_same" and objs:
                 u = pick(objs).uid
-                bad = refused(ws, tag, lambda: Points.create(ws, name=fresh("dupP"), vertices=np.zeros((2, 3)), uid=u, parent=pick(grps) or ws.root))
+                # the identifier in any spelling the constructors accept
+                if a % 5 == 4:  # through the attribute key the file loader uses
+                    bad = refused(ws, tag, lambda: Points.create(ws, name=fresh("dupP"), vertices=np.zeros((2, 3)), ID=u, parent=pick(grps) or ws.root))
+                else:
+                    u = [u, str(u), "{" + str(u) + "}", str(u).upper()][a % 5]
+                    bad = refused(ws, tag, lambda: Points.create(ws, name=fresh("dupP"), vertices=np.zeros((2, 3)), uid=u, parent=pick(grps) or ws.root))
+            elif op == "reuse_type" and objs:
+                # a type asked to carry the identifier of a live type of another class
+                o = pick(objs)
+                tu = o.entity_type.uid
+                bad = refused(ws, tag, lambda: o.add_data({fresh("dupt"): {"values": np.zeros(2), "entity_type": {"uid": tu, "primitive_type": "FLOAT"}}}))
             elif op == "reuse_cross" and objs:
                 u = pick(objs).uid
                 bad = refused(ws, tag, lambda: ContainerGroup.create(ws, name=fresh("dupG"), uid=u))
@@ -225,9 +235,9 @@ class IdentifierHistories(Contract):
     symbolic = False
     has_native = True
     props = ("C06",)
-    bounded_scope = ("two file-backed workspaces; sequences of 5-10 operations over {create points/group/data/property group, create with an identifier in use by the same kind / "
+    bounded_scope = ("two file-backed workspaces; sequences of 5-10 operations over {create points/group/data/property group, create with an identifier in use by the same kind (given as UUID, text, braced or upper-case text, or through the 'ID' attribute key) / a type with the identifier of a type of another class / "
                      "another kind / a property group, property group with an object's or data's identifier, data with its parent's or a group's identifier, copy within / into the other workspace (twice, also after removing the earlier copy there), remove, re-create with the "
-                     "freed identifier, re-open, gc}: 16 fixed + 60 seeded (quick) / 800 seeded (thorough); uniqueness, lookup, refusal-without-side-effects and type sharing after every step")
+                     "freed identifier, re-open, gc}: 20 fixed + 60 seeded (quick) / 800 seeded (thorough); uniqueness, lookup, refusal-without-side-effects and type sharing after every step")
 
     FIXED = [
         [("points", 0), ("reuse_same", 0)],
@@ -237,6 +247,10 @@ class IdentifierHistories(Contract):
         [("group", 0), ("points", 0), ("reuse_same", 0), ("reopen", 0)],
         [("points", 0), ("data", 0), ("pgroup", 0), ("reuse_pg", 0)],
         [("points", 0), ("pg_reuse", 0), ("reopen", 0)],
+        [("points", 0), ("reuse_same", 1), ("reuse_same", 2), ("reuse_same", 3), ("reopen", 0)],
+        [("group", 0), ("points", 0), ("reuse_same", 2), ("reopen", 0)],
+        [("group", 0), ("points", 0), ("reuse_same", 4), ("reopen", 0)],
+        [("points", 0), ("reuse_type", 0), ("points", 0), ("copy_same", 0)],
         [("points", 0), ("data", 0), ("pg_reuse", 1), ("reopen", 0)],
         [("points", 0), ("data", 0), ("pgroup", 0), ("copy_same", 0), ("copy_same", 1)],
         [("points", 0), ("data", 0), ("pgroup", 0), ("copy_other", 0), ("copy_other_again", 0)],
@@ -253,7 +267,7 @@ class IdentifierHistories(Contract):
             yield {"ops": ops}
         for _ in range(60 if tier == "quick" else 800):
             n = rng.randint(5, 10)
-            ops = [("points", 0)] + [(rng.choice(OPS), rng.randint(0, 3)) for _ in range(n)]
+            ops = [("points", 0)] + [(rng.choice(OPS), rng.randint(0, 4)) for _ in range(n)]
             yield {"ops": ops}
 
     def native_check(self, case):
